@@ -481,7 +481,7 @@ fn all_pairs(dim_c: usize, dim_r: usize) -> Vec<Win> {
 }
 
 pub fn run_c03(ctx: &mut Ctx) {
-    let n1 = nsel(ctx, 2, 3, 3, 5, 7);
+    let n1 = nsel(ctx, 2, 3, 3, 5, 8);
     let n2 = nsel(ctx, 1, 2, 2, 3, 4);
     let n3 = nsel(ctx, 0, 1, 2, 3, 3);
     // depth 1: every (start,end) pair, valid and invalid
